@@ -10,8 +10,7 @@
       p.bsp       = bsp      (normally = back.length; it exceeds len(p.bs) by one in exactly the two
                               states Go creates on purpose: the EOF position of `rune` (`p.bsp = len(p.bs)+1`) and `errPass`)
   so that `p.bs[p.bsp]` is the head of `front`, `p.bs[p.bsp:]` is `front`, and the bytes just
-  before the cursor (`p.bs[p.bsp-w:p.bsp]`, needed by `newLit` and the stop-word test) are the
-  first `w` elements of `back`.  `p.litBs` is kept reversed in `lit` (`none` = nil slice).
+  before the cursor are the first elements of `back`.  `p.litBs` is kept reversed in `lit` (`none` = nil slice).
   The representation invariant is part of the refinement relation `R` of Proofs/C07.lean.
 
   The reader.  `pending` are the bytes the `io.Reader` has not delivered yet, `sched` the chunk
@@ -124,6 +123,10 @@ def encodeRune (r : Nat) : List Byte :=
   else
     [UInt8.ofNat (0xF0 + r / 262144), UInt8.ofNat (0x80 + r / 4096 % 64),
      UInt8.ofNat (0x80 + r / 64 % 64), UInt8.ofNat (0x80 + r % 64)]
+
+/-- `utf8.AppendRune(nil, r)`: values above `utf8.MaxRune` are written as U+FFFD as well -/
+def appendRune (r : Nat) : List Byte :=
+  if r ≤ 0x10FFFF then encodeRune r else [0xEF, 0xBF, 0xBD]
 
 /-! ## the reader -/
 
@@ -360,16 +363,18 @@ def runeAscii (b : Byte) (bq : Nat) (s : St) : M Step :=
   else if b == 92 then runeBackslash b bq s
   else pure (.done (runeTail b bq s))
 
-/-- the `decodeRune:` part of `rune` -/
+/-- the `decodeRune:` part of `rune`; `p.w = w` is stored before the invalid-encoding error is
+    raised, so that the error is reported at the offending byte's own offset -/
 def runeDecode (s : St) : M St := do
   let (w, s) ← decodeLoop 4 s
   let s := s.litPush (s.front.take w)
   let s := s.advanceN w
+  let s := { s with w }
   let s := if s.r == runeError && w == 1 then
       let (o, l, c) := s.nextPos
       s.errPass (.utf8 o l c)
     else s
-  pure { s with w }
+  pure s
 
 /-- `return runeEOF` branch -/
 def runeAtEOF (s : St) : St :=
@@ -410,17 +415,12 @@ def rune (s : St) : M (Nat × St) := do
   let s ← runeLoop (s.total + 2) 0 s
   pure (s.r, s)
 
-/-- `Parser.newLit` -/
+/-- `Parser.newLit`: the literal starts with the encoding of `r` (not with bytes copied out of the
+    read buffer, which a look-ahead may have refilled) -/
 def newLit (s : St) (r : Nat) : M St :=
   if r < 0x80 then pure { s with lit := some [UInt8.ofNat r] }
   else if r == runeEOF || r == escNewl then pure { s with lit := some [] }
-  else
-    let w := runeLen r
-    -- p.bs[p.bsp-uint(w):p.bsp]; when p.bsp exceeds len(p.bs) Go would read stale bytes of
-    -- readBuf through the capacity of the slice: not modelled, reported as a fault.
-    if w < 0 then throw (.oob 10)
-    else if s.bsp ≠ s.back.length ∨ w.toNat > s.back.length then throw (.oob 10)
-    else pure { s with lit := some (s.back.take w.toNat) }
+  else pure { s with lit := some (appendRune r).reverse }
 
 /-- `Parser.endLit` -/
 def endLit (s : St) : M (List Byte × St) :=
